@@ -303,6 +303,11 @@ def judge(case, o, m):
     for bnd, mc, oi in zip(A["bands"], M["bands"], band_src):
         ob = case["objs"][oi]
         line = A["lines"][main_src.index(oi)]
+        if bnd.get("empty"):
+            # no finite uncertainty anywhere on the curve: there is no band to judge (the statement
+            # fixes the curve; non-finite band points are skipped below in the same way)
+            stats["band_without_any_finite_point"] = stats.get("band_without_any_finite_point", 0) + 1
+            continue
         mlo, mhi = _fbl(mc["lo"]), _fbl(mc["hi"])
         if len(bnd["xs"]) != 100 or bnd["xs"] != bnd["xs_upper"] or \
                 any(not _near(x, lx, rel=1e-9) for x, lx in zip(bnd["xs"], line["xs"])):
